@@ -107,18 +107,22 @@ def run(rep, tier, replay):
             lin = W * enc + start["tout"] * (start["bs"] * 100000 * 1.2) + start["tin"] * start["ig"]
         # how many slots a run really fills at the same time depends on the schedule (measured: 51-90 MiB for the same input),
         # so the 4x run is compared with the larger of the base run and the saturation level computed from the logged totals
-        if r16 > max(r1, lin) * 1.25 + 16 * MiB:
+        # with a slow consumer every slot is full and the allocator's own overhead (per-thread arenas, 900 kB chunks below the
+        # dynamic mmap threshold) is at its largest: measured plateau 160-190 MiB for W = 4, independent of the input size
+        slow = "slow_writer" in key[1]
+        g_mul, g_add, b_mul, b_add = (1.5, 32 * MiB, 3.0, 64 * MiB) if slow else (1.25, 16 * MiB, 1.5, 32 * MiB)
+        if r16 > max(r1, lin) * g_mul + g_add:
             rep.violation("peak RSS grows with the input: %s: %d KiB at 1x, %d KiB at 4x (saturation level %d KiB)" %
                           (key, ts[1].rss, ts[sizes[-1]].rss, int(lin / 1024)),
                           dict(kind="rss", cls="rss-growth", series=list(map(str, key)), rss_kib=[ts[k].rss for k in sizes]))
-        if r16 > 1.5 * lin + 32 * MiB:
-            rep.violation("peak RSS above the linear bound: %s: %d KiB, bound %d KiB" % (key, ts[sizes[-1]].rss, int((1.5 * lin + 32 * MiB) / 1024)),
+        if r16 > b_mul * lin + b_add:
+            rep.violation("peak RSS above the linear bound: %s: %d KiB, bound %d KiB" % (key, ts[sizes[-1]].rss, int((b_mul * lin + b_add) / 1024)),
                           dict(kind="rss", cls="rss-bound", series=list(map(str, key)), rss_kib=ts[sizes[-1]].rss))
     rep.cov["rss_kib_by_series"] = table
     rep.cov.setdefault("traces_validated_against_impl", 0)
     rep.sample({"rss_series": list(table.items())[:3]})
     rep.cov["exhaustive"] = False
     rep.cov["unconfirmed_model_counterexample"] = [m[0] for m in mbad]
-    rep.assumptions += ["ru_maxrss is read by the hook at Uninit; tolerances: the 4x input may use 1.25x + 16 MiB of max(base run, saturation level computed from the logged slot totals), and 1.5x + 32 MiB of that level; leaks proper are decided by the heap check at Uninit"]
+    rep.assumptions += ["ru_maxrss is read by the hook at Uninit; tolerances: the 4x input may use 1.25x + 16 MiB of max(base run, saturation level computed from the logged slot totals), and 1.5x + 32 MiB of that level (slow-consumer series: 1.5x + 32 MiB and 3x + 64 MiB, allocator overhead is largest there); leaks proper are decided by the heap check at Uninit"]
     if mbad and not rep.violations:
         raise vlib.Infra("model counterexample(s) not reproduced on the binary: %s" % [m[0] for m in mbad])
